@@ -8,6 +8,21 @@ CHECKS = {
     note='floats modelled as reals (FP error of (x-d)*60, 1e-9 deg conditioning, triangle inequality and rhumb functions are outside); decimal rounding of printed fields modelled as any decimal within half a last digit; cos(dec)>0; sympy normaliser and z3 are trusted, cross-checked numerically; every model is replayed on the real functions before it is reported.',
     technique='symbolic execution of the real Python source on z3 terms (own executor), path forking by re-execution, z3 decides negated assertions; models replayed on real code',
     design='4/C17'),
+ 'C20': dict(
+    text='Slices of the real load_image_band (validation chain, row_min/row_max arithmetic, header update, regenerated from the working tree by name anchors) are executed on bit-precise symbolic ints/floats (32-bit vectors, IEEE binary64, int() as RTZ) and symbolic reals. z3 decides for rows in [1,20000] symbolic, band index symbolic, band count enumerated 1..64: first band starts at 0, consecutive bands abut, last band ends at the last row, 0<=row_min<=row_max; invalid (i,n) <=> AegeanError for all integers; CRPIX2/NAXIS2 adjustment on plain and compressed control paths.',
+    note='pixel equality through astropy section[]/BSCALE is plumbing checked on concrete files only (replay oracle); 32-bit ints cannot wrap within the stated ranges; slicing drops statements that do not assign the anchored names.',
+    technique='AST slice of the real function executed on z3 bit-vector/floating-point terms; z3 (QF_BV/QF_FP/LIA) decides; models replayed through real FITS I/O',
+    design='4/C20'),
+ 'C08': dict(
+    text='One inductive step from an arbitrary region state: the real Region methods (union same/coarser/finer with renorm on/off, without, intersect, symmetric_difference, add_pixels+_renorm, get_demoted, get_area, sky_within) run on guarded finite sets whose membership bits are solver variables (all pixels below one level-1 pixel, depth 2-3, thorough 4); z3 decides per path that the deepest-level abstraction equals the set-algebra result, ids are valid integers, no patch is stored twice after renormalisation, caches stay coherent and queries change nothing. Covers histories of any length because every reachable cache/duplicate state is a pre-state.',
+    note='universe restricted to one base-pixel subtree (ids are only used through 4p+k, p/4, p%4); healpy.ang2pix/nside2pixarea are the real library on concrete arguments; pickle round trip not decided; counterexamples are rebuilt through the public API and compared with python set algebra before being reported.',
+    technique='symbolic execution of the real Python source on guarded finite sets (z3 Booleans), path forking by re-execution, z3 decides; inductive-step formulation of the history quantifier',
+    design='4/C08'),
+ 'C12': dict(
+    text='The real Region._uniq, write_fits and write_reg run on symbolic guarded sets (depth 1-3, thorough 4; empty-cache, post-get_demoted, post-get_area and cached states): z3 decides that decoding the NUNIQ list gives exactly the stored (level, pixel) set at all levels, MOCORDER equals the depth, one DS9 polygon is emitted per stored pixel with nest=True/step=1/int ids, and exports leave the region unchanged.',
+    note='astropy FITS writing, SkyCoord formatting, healpy.boundaries and pickle are cut in the symbolic runs (arguments recorded) and run for real only in the replay oracle; polygon vertices vs HEALPix corners and .mim fidelity are not decided.',
+    technique='symbolic execution of the real Python source on guarded finite sets (z3), z3 decides; I/O libraries cut with argument recorders; models replayed through real astropy/healpy',
+    design='4/C12'),
 }
 NA = {}
 ALL = ['C%02d' % i for i in range(1, 21)]
